@@ -163,11 +163,16 @@ pub fn package(tier: Tier) -> Pkg {
             "filtermap fm_p_u32(x: u32) { reject x }".into(),
         ),
     );
-    // payload types the documentation leaves open: an unsuffixed literal, a
-    // payload whose type argument nothing determines. Only "no panic" is demanded.
+    // filtermaps whose payload type is inferred from unannotated literals
+    // (one side used; the inferred-payload family has all combinations)
+    for tg in inferred_one_sided() {
+        root.push_str(&tg.src);
+        root.push('\n');
+        t.push(tg);
+    }
+    // payloads whose type argument nothing determines. Only "no panic" and
+    // "one Rust type at most" are demanded.
     for (name, body) in [
-        ("fm_a_lit", "accept 5"),
-        ("fm_a_float", "accept 1.5"),
         ("fm_a_none", "accept Option.None"),
         ("fm_r_none", "reject Option.None"),
         ("fm_a_empty", "accept []"),
@@ -354,4 +359,152 @@ pub fn package(tier: Tier) -> Pkg {
     t.retain(|x| x.expect != Expect::Nothing || seen.insert(x.name.clone()));
 
     Pkg { root, sub, targets: t }
+}
+
+// ------------------------------------------------------------------ inferred payloads
+
+/// A payload expression built only from unannotated literals, and the type
+/// the lowering fixes it to (`{integer}` = i32, `{float}` = f64:
+/// typechecker/info.rs). `{v}` is a variable name chosen per position.
+pub struct Kind {
+    pub tag: &'static str,
+    pub pre: &'static str,
+    pub expr: &'static str,
+    pub ty: T,
+}
+
+pub fn kinds() -> Vec<Kind> {
+    use c04p::ty::{list, opt};
+    let i32_ = || l(Leaf::I32);
+    let f64_ = || l(Leaf::F64);
+    let k = |tag, pre, expr, ty| Kind { tag, pre, expr, ty };
+    vec![
+        k("lit", "", "5", i32_()),
+        k("neg", "", "-5", i32_()),
+        k("sum", "", "5 + 1", i32_()),
+        k("mul", "", "2 * 3", i32_()),
+        k("if", "", "(if eb(0, true) { 5 } else { 6 })", i32_()),
+        k("let", "let {v} = 5; ", "{v}", i32_()),
+        k("letneg", "let {v} = -5; ", "{v}", i32_()),
+        k("flt", "", "1.5", f64_()),
+        k("nflt", "", "-1.5", f64_()),
+        k("fsum", "", "1.5 + 2.5", f64_()),
+        k("letf", "let {v} = 1.5; ", "{v}", f64_()),
+        k("some", "", "Option.Some(5)", opt(i32_())),
+        k("someneg", "", "Option.Some(-5)", opt(i32_())),
+        k("somef", "", "Option.Some(1.5)", opt(f64_())),
+        k("list", "", "[1, 2, 3]", list(i32_())),
+        k("listneg", "", "[-1]", list(i32_())),
+        k("listf", "", "[1.5]", list(f64_())),
+        // an anonymous record has no Rust counterpart at all
+        k("rec", "", "{ a: 5 }", T::Alien("roto:{ a: {integer} }")),
+        // not inferred: fill the bool and () columns
+        k("bool", "", "true", l(Leaf::Bool)),
+        k("unit", "", "()", unit()),
+    ]
+}
+
+fn side(k: &Kind, var: &str) -> (String, String) {
+    (k.pre.replace("{v}", var), k.expr.replace("{v}", var))
+}
+
+/// accept-only and reject-only filtermap per kind
+pub fn inferred_one_sided() -> Vec<Target> {
+    let mut t = vec![];
+    for k in kinds() {
+        let (pre, e) = side(&k, "x");
+        let name = format!("ia_{}", k.tag);
+        let src = format!("filtermap {name}() {{ {pre}accept {e} }}");
+        t.push(func(&name, "inferred", vec![], ver(k.ty.clone(), unit()), src));
+        let name = format!("ir_{}", k.tag);
+        let src = format!("filtermap {name}() {{ {pre}reject {e} }}");
+        t.push(func(&name, "inferred", vec![], ver(unit(), k.ty.clone()), src));
+    }
+    t
+}
+
+const NUM10: [Leaf; 10] = [
+    Leaf::U8,
+    Leaf::U16,
+    Leaf::U32,
+    Leaf::U64,
+    Leaf::I8,
+    Leaf::I16,
+    Leaf::I32,
+    Leaf::I64,
+    Leaf::F32,
+    Leaf::F64,
+];
+
+fn is_float(x: Leaf) -> bool {
+    matches!(x, Leaf::F32 | Leaf::F64)
+}
+
+/// The package of the inferred-payload family: every (accept kind, reject
+/// kind, sides used) combination, and as controls the same literals with
+/// their type pinned by a suffix, an annotated `let`, a declared return type
+/// or a parameter.
+pub fn inferred_package() -> Pkg {
+    let mut t = inferred_one_sided();
+    let ks = kinds();
+    for a in &ks {
+        for r in &ks {
+            let (pa, ea) = side(a, "xa");
+            let (pr, er) = side(r, "xr");
+            let name = format!("ib_{}_{}", a.tag, r.tag);
+            let src = format!(
+                "filtermap {name}() {{ {pa}{pr}if eb(0, true) {{ accept {ea} }} else {{ reject {er} }} }}"
+            );
+            t.push(func(&name, "inferred", vec![], ver(a.ty.clone(), r.ty.clone()), src));
+        }
+    }
+    // controls: the type is pinned in the script
+    for x in NUM10 {
+        let ty = x.roto();
+        let lit = if is_float(x) { "1.5" } else { "5" };
+        let name = format!("cs_a_{ty}");
+        let src = format!("filtermap {name}() {{ accept {lit}{ty} }}");
+        t.push(func(&name, "pinned", vec![], ver(l(x), unit()), src));
+        let name = format!("cs_r_{ty}");
+        let src = format!("filtermap {name}() {{ reject {lit}{ty} }}");
+        t.push(func(&name, "pinned", vec![], ver(unit(), l(x)), src));
+        let name = format!("cl_a_{ty}");
+        let src = format!("filtermap {name}() {{ let x: {ty} = {lit}; accept x }}");
+        t.push(func(&name, "pinned", vec![], ver(l(x), unit()), src));
+        // pinned on one side, inferred on the other
+        let name = format!("cm_{ty}_lit");
+        let src = format!("filtermap {name}() {{ if eb(0, true) {{ accept {lit}{ty} }} else {{ reject 5 }} }}");
+        t.push(func(&name, "inferred", vec![], ver(l(x), l(Leaf::I32)), src));
+        let name = format!("cm_flt_{ty}");
+        let src = format!("filtermap {name}() {{ if eb(0, true) {{ accept 1.5 }} else {{ reject {lit}{ty} }} }}");
+        t.push(func(&name, "inferred", vec![], ver(l(Leaf::F64), l(x)), src));
+        // accept pinned by the parameter, reject pinned by a suffix
+        let name = format!("fp_{ty}");
+        let src = format!("filtermap {name}(x: u8) {{ if x == 0 {{ accept x }} else {{ reject {lit}{ty} }} }}");
+        t.push(func(&name, "pinned", vec![l(Leaf::U8)], ver(l(Leaf::U8), l(x)), src));
+        for y in NUM10 {
+            let (ta, tr) = (x.roto(), y.roto());
+            let name = format!("rv_{ta}_{tr}");
+            let src = format!("fn {name}() -> Verdict[{ta}, {tr}] {{ Verdict.Accept({lit}) }}");
+            t.push(func(&name, "pinned", vec![], ver(l(x), l(y)), src));
+        }
+    }
+    // accept pinned by the parameter, reject inferred
+    for (name, body, rej) in [
+        ("fp_lit", "if x == 0 { accept x } else { reject 5 }", l(Leaf::I32)),
+        ("fp_neg", "if x == 0 { accept x } else { reject -5 }", l(Leaf::I32)),
+        ("fp_flt", "if x == 0 { accept x } else { reject 1.5 }", l(Leaf::F64)),
+        ("fp_sum", "accept x + 1", unit()),
+    ] {
+        let src = format!("filtermap {name}(x: u8) {{ {body} }}");
+        t.push(func(name, "inferred", vec![l(Leaf::U8)], ver(l(Leaf::U8), rej), src));
+    }
+    let mut root = String::new();
+    for x in &t {
+        root.push_str(&x.src);
+        root.push('\n');
+    }
+    t.push(nothing("ia_", "unknown"));
+    t.push(nothing("nope", "unknown"));
+    Pkg { root, sub: String::new(), targets: t }
 }
